@@ -140,6 +140,8 @@ class RunRec:
         self.save_counts = {}
         self.saved_ids = set()
         self.file = None  # for real worker processes
+        self.end_seq = None
+        self.end_pending = 0
 
     def now(self):
         return self.loop.time() if self.loop is not None else 0.0
